@@ -253,6 +253,23 @@ pub fn h_shim_pair<S: Src, const N: usize>(s: &mut S) {
         },
     }
 }
+// ---------------------------------------------------------------- verify
+pub fn h_shim_verify<S: Src, const N: usize>(s: &mut S) {
+    use tp::nom::combinator::verify;
+    let buf: [u8; N] = s.bytes();
+    let n = s.usize();
+    vassume!(s, n <= N);
+    let lim: u8 = s.u8();
+    let i = &buf[..n];
+    let r: R<u8> = verify(elem, |&v: &u8| v <= lim)(i);
+    match (elem(i), &r) {
+        (Err(e1), Err(e)) => vassert!(s, *e == e1, "shim verify: the parser's error is propagated unchanged"),
+        (Ok((rem1, o1)), Ok((rem, o))) => vassert!(s, o1 <= lim && *o == o1 && rem.as_ptr() == rem1.as_ptr() && rem.len() == rem1.len(), "shim verify: predicate true => the parser's Ok unchanged"),
+        (Ok((_, o1)), Err(Err::Error(e))) => vassert!(s, o1 > lim && e.code == ErrorKind::Verify && e.input.as_ptr() == i.as_ptr() && e.input.len() == i.len(), "shim verify: predicate false => Error(Verify) at the original input"),
+        _ => vassert!(s, false, "shim verify: result class follows the parser and the predicate"),
+    }
+}
+harness!(shim_verify, unwind = 6, h_shim_verify::<_, 4>);
 harness!(shim_pair, unwind = 6, h_shim_pair::<_, 4>);
 harness!(shim_opt_cond, unwind = 6, h_shim_opt_cond);
 harness!(shim_map_parser, unwind = 6, h_shim_map_parser::<_, 5>);
